@@ -79,8 +79,16 @@ def model_st(draw, fmt):
     style = draw(st.sampled_from(["E", "D", "D0", "plain", "noleading"]))
     els = draw(st.lists(st.sampled_from(ELEMENTS), min_size=1, max_size=4, unique=True))
     model = []
+    universal = draw(st.integers(0, 3)) == 0
     for el in els:
         shells = []
+        if universal and model and len(model[-1][1][-1]["letters"]) == 1:
+            # universal / even-tempered sets: an element starts with the very exponents (and angular momentum) on which the element
+            # written just before it ended - state must not be carried from one element to the next
+            last = model[-1][1][-1]
+            shells.append({"letters": last["letters"], "exps": list(last["exps"]),
+                           "cols": [[draw(token(style, True, 1e-4, 10.0)) for _ in last["cols"][0]] for _ in last["exps"]],
+                           "shared_with_previous_element": True})
         for _ in range(draw(st.sampled_from([1, 2, 3, 4, 5, 6, 10, 12]))):
             prev = shells[-1] if shells else None
             if fmt == "gbs" and prev is not None and len(prev["letters"]) == 1 and draw(st.integers(0, 3)) == 0:
